@@ -43,12 +43,12 @@ func (C17) Gen(r *core.Rng, tier string, emit func(string)) {
 		if positions > 12 {
 			// all positions for small trees, sampled for large ones
 			for k := 0; k < 12; k++ {
-				emit(fmt.Sprintf("iter %d %s %s", r.Intn(positions), compName(ic), dl))
+				emit(fmt.Sprintf("iter %d%s %s %s", r.Intn(positions), []string{"", "p"}[r.Intn(2)], compName(ic), dl))
 			}
 			emit(fmt.Sprintf("iter %d %s %s", positions-1, compName(ic), dl))
 		} else {
 			for k := 0; k < positions; k++ {
-				emit(fmt.Sprintf("iter %d %s %s", k, compName(ic), dl))
+				emit(fmt.Sprintf("iter %d%s %s %s", k, []string{"", "p"}[r.Intn(2)], compName(ic), dl))
 			}
 		}
 	}
@@ -60,8 +60,10 @@ func (C17) RunGo(line string) string {
 		return "bad-case"
 	}
 	fail := -1
+	partial := false // the failing fetch hands back the first bytes of the directory together with its error (a cut body read by io.ReadAll)
 	if t[1] != "-" {
-		fail, _ = strconv.Atoi(t[1])
+		partial = strings.HasSuffix(t[1], "p")
+		fail, _ = strconv.Atoi(strings.TrimSuffix(t[1], "p"))
 	}
 	ic := compOf(t[2])
 	dirs, _, ok := parseDirsLine(t[3:])
@@ -78,6 +80,9 @@ func (C17) RunGo(line string) string {
 	var visited []pmtiles.EntryV3
 	err := pmtiles.IterateEntries(h, func(off, length uint64) ([]byte, error) {
 		if fail >= 0 && off == failOff && length == failLen {
+			if partial && off+length <= uint64(len(ab)) {
+				return ab[off : off+length/2+1], errors.New("injected fetch failure after some bytes")
+			}
 			return nil, errors.New("injected fetch failure")
 		}
 		if off+length > uint64(len(ab)) {
@@ -102,7 +107,7 @@ func (C17) Branch(line, goOut string) string {
 	f := "fault"
 	if t[1] == "-" {
 		f = "nofault"
-	} else if t[1] == "0" {
+	} else if t[1] == "0" || t[1] == "0p" {
 		f = "rootfault"
 	}
 	return f + " " + t[2] + " " + strings.SplitN(goOut, " ", 2)[0]
